@@ -67,7 +67,7 @@ def problems_for(b, item, dec, simp, eqb):
         resp = b.call(*req, timeout=120)
         return req, resp, parse_problems(resp[0])
     req, resp = run_task(b, item['task'], item['direction'], dec, simp, eqb)
-    if resp[0][0] == 'refused':
+    if resp[0][:1] == ('refused',):
         return req, resp, None
     return req, resp, [p for p in parse_problems(resp[0]) if '_outline_' not in p['name']]
 
